@@ -217,6 +217,28 @@ def tlc_cover(ctx, module, cfg, timeout=1800, limit=None, seed=0):
     return hist
 
 
+def tlc_enum(ctx, module, cfg, timeout=1800):
+    """Exhaustive enumeration of the initial states of a generation module
+    whose invariant prints one operation list per state."""
+    t = time.time()
+    rc, out = tlc(ctx, module, cfg, workers='1', timeout=timeout)
+    m = _STATS.findall(out)
+    if 'Model checking completed. No error has been found.' not in out or not m:
+        raise Infra('enumeration %s/%s failed:\n%s' % (module, cfg, tail_errors(out)))
+    ops = []
+    for ln in out.splitlines():
+        mm = _OPS.match(ln)
+        if mm:
+            ops.extend(json.loads(unquote_tla(mm.group(1))))
+    gen, dist = int(m[-1][0]), int(m[-1][1])
+    ctx.mc_states += dist
+    ctx.mc_transitions += gen
+    ctx.mc_runs.append(dict(module=module, cfg=cfg, distinct_states=dist, states_generated=gen,
+                            wall_s=round(time.time() - t, 1), mode='enumeration of grid points, 3 invariants each'))
+    log('  ENUM %s (%s): %d grid points, %.1fs' % (module, cfg, dist, time.time() - t))
+    return ops
+
+
 # ----------------------------------------------------------------------------
 # scripts, driving, validation
 # ----------------------------------------------------------------------------
@@ -350,7 +372,8 @@ def owned(prop, why, owners):
     return [r for r in why if any(r.startswith(p) for p in pre)]
 
 
-def judge(ctx, trace_module, scripts, trace_path, bad, owners, revalidate=True, trace_cfg=None, extra_env=None):
+def judge(ctx, trace_module, scripts, trace_path, bad, owners, revalidate=True, trace_cfg=None, extra_env=None,
+          retries=1):
     """Turn the rejected traces into KNOWN-FINDING / VIOLATION / foreign.
     Returns dict(violations=[paths], known=[...], foreign=n)."""
     res = dict(violations=[], known=[], foreign=0, foreign_rules={})
@@ -387,9 +410,16 @@ def judge(ctx, trace_module, scripts, trace_path, bad, owners, revalidate=True, 
         if script is None:
             raise Infra('rejected trace %s has no script' % tid)
         if revalidate:
-            t2 = drive(ctx, [script], name='replay-' + hashlib.sha1(tid.encode()).hexdigest()[:10])
-            bad2 = validate(ctx, trace_module, t2, cfg=trace_cfg, extra_env=extra_env)
-            again = [x for x in bad2 if owned(ctx.prop, x['why'], owners)]
+            # scripts that run instances concurrently depend on the Go
+            # scheduler: they get several attempts to show the rejection again
+            again = []
+            for attempt in range(retries if script.get('cfg', {}).get('conc') else 1):
+                t2 = drive(ctx, [script], name='replay-' + hashlib.sha1(tid.encode()).hexdigest()[:10],
+                           call_timeout='20s')
+                bad2 = validate(ctx, trace_module, t2, cfg=trace_cfg, extra_env=extra_env)
+                again = [x for x in bad2 if owned(ctx.prop, x['why'], owners)]
+                if again:
+                    break
             if not again:
                 raise Infra('rejection of trace %s (%s) was not reproduced on re-execution' % (tid, why))
         path = write_replay(ctx, script, evs, idx, mine, why)
